@@ -483,6 +483,11 @@ def run_case(case, env):
                 fired = [x for x in fr.calls if x.fault]
                 for x in fired:
                     _bump(stats["faults_fired"], "ERR:" + x.name)
+                if fired and not (fired[0].name == "getdents64" and (fired[0].fdpath or "").startswith(sb.root)):
+                    # the call numbers come from the run before the outputs existed; with more directory entries the number can
+                    # land on another call (a stat, an open).  What qmluic does with an error there is not this oracle's business
+                    _bump(probes, "listing_fault_landed_on_another_call_ignored")
+                    fired = []
                 if fr.bound or fr.signal is not None:
                     viol.append(V("termination", "c18:abnormal-end", "%s: under %s at a directory listing the process ended with %s" % (desc, sc["dirfault"][1], fr.disposition()), schedule=k))
                 elif fr.exit_status == 0 and fired:
